@@ -364,10 +364,13 @@ start:
 		return
 	}
 
-	// If v.maxVersion(0) is non-negative, then we loaded API
-	// versions. If the version for this request is negative, we
-	// know the broker cannot handle this request.
-	if v.maxVersion(0) >= 0 && v.maxVersion(req.Key()) < 0 {
+	// If the versions map is non-empty, then we loaded API versions
+	// (the map is only empty when we are pinned pre 0.10.0 and did not
+	// issue ApiVersions). We do not use the produce key as the marker:
+	// a broker need not advertise it (KRaft controllers do not). If
+	// the version for this request is negative, we know the broker
+	// cannot handle this request.
+	if len(v.maxVers) > 0 && v.maxVersion(req.Key()) < 0 {
 		pr.promise(nil, errBrokerTooOld)
 		return
 	}
